@@ -1,0 +1,35 @@
+//go:build verif
+
+package util
+
+// Contracts for the verification machinery in /verif (comment-only; see /verif/DESIGN.md).
+
+//@ func LdReadSize
+//@   modifies pos(r)
+//@   let v, verr := call[varint.ReadUvarint#0]
+//@   ensures value [C01,C02,C14]: err == nil ==> result == v && pos(r) == old(pos(r)) + vsize(v)
+//@   ensures within [C09]: err == nil ==> result <= maxReadBytes
+//@   ensures range [C09,C14]: err == nil ==> result < 9223372036854775808
+//@   ensures nonzero [C02]: err == nil && zeroLenAsEOF ==> result > 0
+//@   ensures over_limit [C09]: verr == nil && v > maxReadBytes && !(v == 0 && zeroLenAsEOF) ==> err == ErrSectionTooLarge
+//@   ensures at_limit [C09]: verr == nil && v <= maxReadBytes && !(v == 0 && zeroLenAsEOF) ==> err == nil
+//@   ensures eof_clean [C02]: err == io.EOF ==> pos(r) == old(pos(r)) || (zeroLenAsEOF && verr == nil && v == 0 && pos(r) == old(pos(r)) + 1)
+//@   ensures zero_on_error [C02]: err != nil ==> result == 0
+//@   ensures monotone [C14]: pos(r) >= old(pos(r))
+
+//@ func LdRead
+//@   modifies pos(r)
+//@   let l, lerr := call[LdReadSize#0]
+//@   alloc[0] bounded_by maxReadBytes
+//@   ensures length [C01,C02,C14]: err == nil ==> len(result) == l && pos(r) == old(pos(r)) + vsize(l) + l
+//@   ensures within [C09]: err == nil ==> len(result) <= maxReadBytes
+//@   ensures monotone [C14]: pos(r) >= old(pos(r))
+//@   ensures eof_clean [C02]: err == io.EOF ==> pos(r) == old(pos(r)) || (zeroLenAsEOF && lerr == io.EOF && pos(r) == old(pos(r)) + 1)
+
+//@ func ReadNode
+//@   modifies pos(r)
+//@   let data, derr := call[LdRead#0]
+//@   let n, c, cerr := call[cid.CidFromBytes#0]
+//@   ensures split [C01,C14]: err == nil ==> bytelen(result0) + len(result1) == len(data) && bytelen(result0) == n
+//@   ensures consumed [C01,C14]: err == nil ==> pos(r) == old(pos(r)) + vsize(len(data)) + len(data)
+//@   ensures eof_clean [C02]: err == io.EOF ==> pos(r) == old(pos(r)) || (zeroLenAsEOF && pos(r) == old(pos(r)) + 1)
